@@ -16,6 +16,11 @@ prop(
          "commits (each: a pure file rename in its own commit, a rename combined with one edit, or 1-3 of: add/delete/re-add file, "
          "add/modify(expr,label,annotation,for,keep_firing_for,control comment,name)/delete/duplicate/swap rule, comment-, blank-line-, "
          "quoting-, key-order- and indentation-only edits, file/disable add/remove/reorder, revert of a file to its fork-point version), "
+         "one history in two additionally holds a directed chain on ONE file: 2-4 consecutive steps (own commits) from {pure rename, edit, "
+         "exact revert of the previous edit, rename back, delete + re-add with the same content, comment/whitespace-only edit with or "
+         "without revert}, placed last in half of the cases, so that files byte-identical to their base version after a non-trivial path "
+         "history (samebytes-moved / samebytes-touched) and files at the same path with other bytes but identical rules "
+         "(samerules-newbytes) are frequent and counted in the class histogram; "
          "and optionally 1-2 further commits on main after the fork. Built with git fast-import + checkout in a scratch repository; "
          "pint's GlobFinder + GitBranchFinder (as wired in cmd/pint/ci.go) classify every HEAD rule; the reference compares each HEAD "
          "file with the fork-point version of its origin (followed through the branch's renames) by rule content with multiplicities; "
